@@ -6,18 +6,18 @@ PID = 'C05'
 
 
 def conc_model_part(rep):
-    """Level 2: ConcImpl.tla - CombineLatest2 and Zip2 at the grain of the code under two concurrent producers.  The library emits after releasing the
+    """Level 2: ConcImpl.tla / ConcImpl2.tla - CombineLatest2, Zip2, TakeUntil and BufferWhen at the grain of the code under two concurrent producers.  The library emits after releasing the
     operator's lock (or without one): TLC is EXPECTED to find runs that no arrival order explains (the counterexamples behind the known concurrent findings,
     which MultiLin.tla reports on recorded runs of the real operators); with the emission inside the critical section Explained holds."""
-    for cfgname in ['ConcImpl_combinelatest_atomic.cfg', 'ConcImpl_zip_atomic.cfg', 'ConcImpl_zip_safe.cfg']:
-        r = vlib.run_tlc('ConcImpl', cfgname, timeout=600, deadlock=False)
+    for cfgname in ['ConcImpl_combinelatest_atomic.cfg', 'ConcImpl_zip_atomic.cfg', 'ConcImpl_zip_safe.cfg', 'ConcImpl2_takeuntil_atomic.cfg', 'ConcImpl2_bufferwhen_atomic.cfg']:
+        r = vlib.run_tlc(cfgname.split('_')[0], cfgname, timeout=600, deadlock=False)
         vlib.tlc_must_pass(r, cfgname)
         rep.add_states(r)
         rep.parts['tlc:' + cfgname] = dict(ok=r.ok, violated=r.violation, generated=r.generated, distinct=r.distinct)
         if r.violation:
             rep.inconclusive.append('Level-2 model %s violates %s (model only)' % (cfgname, r.violation))
-    for cfgname in ['ConcImpl_combinelatest.cfg', 'ConcImpl_zip.cfg']:
-        r = vlib.run_tlc('ConcImpl', cfgname, timeout=600, deadlock=False)
+    for cfgname in ['ConcImpl_combinelatest.cfg', 'ConcImpl_zip.cfg', 'ConcImpl2_takeuntil.cfg', 'ConcImpl2_bufferwhen.cfg']:
+        r = vlib.run_tlc(cfgname.split('_')[0], cfgname, timeout=600, deadlock=False)
         rep.add_states(r)
         rep.parts['tlc:' + cfgname] = dict(violated=r.violation, note='design-level counterexample of a known concurrent finding (emit after unlock): no arrival order explains the output; '
                                                                        'the real operators are judged by MultiLin.tla on recorded runs')
